@@ -117,7 +117,7 @@ def replica_routing(rep, prop, seed, tier):
     fmt_ = ("strategy(0 master,1 both,2 replica) masters layout # ar<m> add replica of m | mr<r>,<m> r now replicates m | d<m>/u<m> master stops/returns | k<n> connections of n reset | "
             "L load | w refresh | g<hexkey> | s<hexkey>")
     for mode, n_, what in (("c14e2e", 12 if quick else 250, "Replica assignments changing, masters unreachable, connections lost, load during refreshes (periodic refresh, end to end)"),
-                           ("c14e2et", 8 if quick else 150, "Replica reassignment and lost connections with no periodic refresh (the table follows redirections only, end to end)")):
+                           ("c14e2et", 14 if quick else 150, "Replica reassignment and lost connections with no periodic refresh (the table follows redirections only, end to end)")):
         res = differential(rep, PROP, mode, seed + 7, n_, tier, model_modes=[])
         cases2, impl2 = res["cases"], res["impl"]
         bad = e2e_oracle(cases2, impl2, mode == "c14e2et")
